@@ -4,7 +4,9 @@ Values are immutable Python objects around z3 terms; memory is a dict of frames 
 cells for reference-typed inputs; calls are the abstraction boundary (exact model / inlined MIR /
 deterministic observer / event with havoc).  See DESIGN.md §1.2.
 """
+import os
 import re
+import time
 import z3
 
 from mirparse import split_top
@@ -836,6 +838,8 @@ class Executor:
         """symbolically execute `fn` from its entry; returns list of Path"""
         st = st or State()
         self.paths = []
+        # wall-clock budget of one symbolic run: exceeding it is an encoding gap (exit 2), never a verdict
+        self.deadline = time.time() + float(os.environ.get("VERIF_SYMEX_BUDGET_S", "600"))
         fid = self.new_frame(st)
         for i, (local, ty) in enumerate(fn.args):
             if args and i < len(args) and args[i] is not None:
@@ -868,6 +872,8 @@ class Executor:
     def exec_block(self, fn, st, fid, bb, stack, _unused):
         while True:
             self.stats["blocks"] += 1
+            if self.stats["blocks"] % 256 == 0 and time.time() > getattr(self, "deadline", float("inf")):
+                raise Unsupported("symbolic execution of %s exceeded its time budget" % fn.name)
             vk = (fid, bb)
             st.visits[vk] = st.visits.get(vk, 0) + 1
             if st.visits[vk] > self.max_visits:
